@@ -11,7 +11,8 @@ from . import bubble as B
 
 
 def script_hash(s):
-    return hashlib.sha1(json.dumps([s["routerID"], s["peers"], s["steps"]], sort_keys=True).encode()).hexdigest()
+    rep = [t for t in s.get("tags", ()) if t.startswith("repeat")]
+    return hashlib.sha1(json.dumps([s["routerID"], s["peers"], s["steps"], rep], sort_keys=True).encode()).hexdigest()
 
 
 def events_of(res):
@@ -58,6 +59,11 @@ def check(prop, tier, spec):
             n = nt if tier == "thorough" else nq
             scripts = scripts + B.spec_generated_scripts(work, n, C.seed()) + \
                 B.spec_generated_scripts(work, max(1, n // 3), C.seed() + 1, passive=True)
+        if tier == "thorough":
+            # schedule-dependent scripts are run several times: each run is one sample of Go's scheduling
+            racy = [x for x in scripts if set(x.get("tags", ())) & {"racy", "apirace", "pmbusy", "closerace", "gate", "pmgate", "dialrace"}]
+            for k in range(1, 5):
+                scripts = scripts + [dict(x, id="%s~%d" % (x["id"], k), tags=list(x.get("tags", [])) + ["repeat%d" % k]) for x in racy]
         seen = set()
         uniq = []
         for s in scripts:
